@@ -6,7 +6,7 @@ from hypothesis import strategies as st
 
 from harness import build, gen, simnet
 from harness.runner import Prop, held, failed
-from props.c09 import base_script
+from props.c09 import base_script, PROXY_200
 
 MECHANISMS = ("break", "raise", "gen_close", "with_exit", "gen_close_other_thread", "drop_in_other_thread")
 
@@ -39,8 +39,11 @@ def scenario_for(case, abandon_at=None, mech=None):
         url = "wss://example.test/"
     else:
         url = build.URL
+    kw = {}
+    if case.get("proxy"):
+        kw["ws_opts"] = {"proxies": {"http": "http://proxy.test:3128", "https": "http://proxy.test:3128"}}
     return build.scenario(script, url=url, reactions=reactions, connect_opts=copts, attempt_extra=att,
-                          horizon=2000.0)
+                          horizon=2000.0, **kw)
 
 
 class C13(Prop):
@@ -69,6 +72,7 @@ class C13(Prop):
             "idle": st.booleans(),
             "ping_timeout": st.booleans(),
             "tls": gen.weighted([(3, st.just(False)), (1, st.just(True))]),
+            "proxy": gen.weighted([(4, st.just(False)), (1, st.just(True))]),      # through an HTTP proxy (CONNECT)
             "sends": sends,
             "client_close": st.one_of(st.none(), st.none(), st.integers(0, 3)),
             "server_close": gen.weighted([(3, st.just(False)), (1, st.just(True))]),
@@ -133,7 +137,9 @@ class C13(Prop):
                 del tr, ws
         # the generator is kept alive while the SAME WebSocket object connects again, and is only
         # finalised afterwards: the first connection's socket must still be closed by its own loop
-        second = {"script": [["wait_request"], ["stream", [["reply", None]], "whole", 0.0], ["eof", 0.5]]}
+        second = {"script": [["wait_request"]] + ([["stream", [["bytes", PROXY_200]], "whole", 0.0], ["wait_requests", 2]]
+                                                  if case.get("proxy") else []) +
+                  [["stream", [["reply", None]], "whole", 0.0], ["eof", 0.5]]}
         for i, name in enumerate(names):
             if name == "connecting" or i == len(names) - 1:
                 continue
@@ -151,10 +157,11 @@ class C13(Prop):
             first.held = None          # now the abandoned generator is finalised
             traces[0] = None
             del first
-            leaked = [s0 for s0 in sim.socks if not _closed_by_library(s0)]
+            mine = [s0 for s0 in sim.socks if s0.attempt is scn["attempts"][0]]     # the abandoned connection's sockets
+            leaked = [s0 for s0 in mine if not _closed_by_library(s0)]
             if leaked:
                 gc.collect()
-                leaked = [s0 for s0 in sim.socks if not _closed_by_library(s0)]
+                leaked = [s0 for s0 in mine if not _closed_by_library(s0)]
             if leaked:
                 return failed("socket_leaked_after_reconnect",
                               "loop abandoned at event %d (%s) with the generator kept alive, the same WebSocket connected "
